@@ -149,8 +149,16 @@ def build_ann(s):
     if k == "tuple":
         return tuple[tuple(build_ann(x) for x in s[1])]
     if k == "union":
-        return typing.Union[tuple(build_ann(x) for x in s[1])]
+        parts = [build_ann(x) for x in s[1]]
+        if len(s) > 2 and s[2] == "|":  # PEP 604 spelling: a types.UnionType, not a typing.Union
+            u = parts[0]
+            for x in parts[1:]:
+                u = u | x
+            return u
+        return typing.Union[tuple(parts)]
     if k == "opt":
+        if len(s) > 2 and s[2] == "|":
+            return build_ann(s[1]) | None
         return typing.Optional[build_ann(s[1])]
     if k == "int":
         return int
